@@ -84,7 +84,16 @@ func envInt(k string, def int) int {
 }
 
 // safeRun runs the harness and converts a panic of the harness itself into a harness error.
+// crashMarker, if set, names the file that always holds the case being executed: if the process
+// dies inside a run (a panic on a goroutine of the code under test), the parent finds it there.
+var crashMarker, crashFocus, crashVariant string
+
 func safeRun(h *Harness, c *Case) (res *Result) {
+	if crashMarker != "" {
+		if data, err := json.Marshal(&ReplayFile{Property: crashFocus, Signature: "process-crash", Case: c, OrigOps: len(c.Ops), Variant: crashVariant, GoVersion: runtime.Version()}); err == nil {
+			_ = ioutil.WriteFile(crashMarker, data, 0644)
+		}
+	}
 	defer func() {
 		if r := recover(); r != nil {
 			buf := make([]byte, 4096)
@@ -218,6 +227,9 @@ func WorkerMain(hs []*Harness) int {
 		return 0
 	}
 
+	if outDir != "" {
+		crashMarker, crashFocus, crashVariant = filepath.Join(outDir, fmt.Sprintf("current-%d.json", worker)), focus, variant
+	}
 	budget := time.Duration(envInt("VERIF_BUDGET_S", 30)) * time.Second
 	maxRuns := envInt("VERIF_MAXRUNS", 1<<30)
 	start := time.Now()
@@ -309,6 +321,9 @@ func WorkerMain(hs []*Harness) int {
 			again := safeRun(h, minC)
 			fv.Replayed = again.HasSig(v.Prop, v.Sig) && again.LogHash == final.LogHash
 		}
+	}
+	if outDir != "" {
+		_ = os.Remove(filepath.Join(outDir, fmt.Sprintf("current-%d.json", worker)))
 	}
 	for k := range hashes {
 		sum.Hashes = append(sum.Hashes, k)
